@@ -100,6 +100,7 @@ type node struct {
 	delayNs   int64
 	events    []evRec
 	markSeen  int
+	maxRV     int // highest resource version carried by any event received so far
 	nmarks    int // marker events received
 	note      chan struct{}
 	mirror    map[string]metav1.Object
@@ -304,7 +305,7 @@ func newWorld(t failer, cfg worldCfg) *world {
 	w.root = root
 	w.h("controller filter=%s period=%v gateFirst=%v", w.filtName(cfg.rootFilter), period, cfg.gateFirst)
 	if cfg.gateFirst {
-		req := w.api.awaitList(wedgeBound + wedgeConfirm)
+		req := w.api.awaitListWedge()
 		if req == nil {
 			w.fail("WEDGE: the controller never issued its first List call")
 		}
@@ -416,6 +417,11 @@ func (n *node) pump() {
 		n.mu.Lock()
 		if !isReady && n.early == "" {
 			n.early = fmt.Sprintf("event %s %s delivered before Ready() closed", ev.Type(), objStr(obj))
+		}
+		if obj != nil {
+			if v := objVersion(obj); v > n.maxRV {
+				n.maxRV = v
+			}
 		}
 		if obj != nil && obj.GetNamespace() == markerNS {
 			if v := objVersion(obj); v > n.markSeen {
@@ -623,7 +629,7 @@ func (w *world) relist() {
 	if !w.cfg.gatedRelist {
 		panic("relist without gatedRelist")
 	}
-	req := w.api.awaitList(wedgeBound + wedgeConfirm)
+	req := w.api.awaitListWedge()
 	if req == nil {
 		w.fail("WEDGE: the controller issued no further List call (refresh period %v)", w.cfg.period)
 	}
